@@ -103,6 +103,10 @@ func (d *c01connDialer) Dial(network, address string) (net.Conn, error) {
 	return c, nil
 }
 
+// c01connRawHook, when set (harness/server/c20_connector_test.go), replaces the literal RawConfig by what
+// client.ParseConfig makes of an equivalent configuration text.
+var c01connRawHook func(*client.RawConfig) (*client.RawConfig, error)
+
 func c01connRun(b *c01connBehaviour) (key, what string, table []string) {
 	pv, pub, _ := ecdh.GenerateKey(rand.Reader)
 	uid := []byte("verif-conn-uid16")
@@ -176,9 +180,15 @@ func c01connRun(b *c01connBehaviour) (key, what string, table []string) {
 		}
 	}()
 	// a connection whose handshake must fail: the dialer hands the client a conn whose peer closes after the hello
-	raw := client.RawConfig{ServerName: "www.example.com", ProxyMethod: "echo", EncryptionMethod: "aes-gcm", UID: uid,
+	raw := &client.RawConfig{ServerName: "www.example.com", ProxyMethod: "echo", EncryptionMethod: "aes-gcm", UID: uid,
 		PublicKey: ecdh.Marshal(pub), NumConn: 1, LocalHost: "127.0.0.1", LocalPort: "1984",
 		RemoteHost: "127.0.0.1", RemotePort: "443", BrowserSig: b.Browser0, Transport: b.Mode}
+	if c01connRawHook != nil { // C20 routes the same configuration through client.ParseConfig (JSON file / option string)
+		var herr error
+		if raw, herr = c01connRawHook(raw); herr != nil {
+			return "", "", []string{"DIVERGED: configuration text refused: " + herr.Error()}
+		}
+	}
 	_, remote, auth, err := raw.ProcessRawConfig(common.WorldState{Rand: rand.Reader, Now: time.Now})
 	if err != nil {
 		return "", "", []string{"config refused: " + err.Error()}
